@@ -50,7 +50,7 @@ def _oracle_Tn_of_vp(eos, vw, vp, Tp0, Tm0, branch):
     sol = sp_root(F, [Tp0, Tm0], method="hybr", options={"xtol": 1e-14})
     if not sol.success and np.max(np.abs(sol.fun)) > 1e-10:
         return None
-    return OH.shock_Tn(eos, vw, vp, sol.x[0], rtol=1e-10)["Tn"]
+    return OH.shock_Tn(eos, vw, vp, sol.x[0], rtol=1e-8)["Tn"]  # only used for a finite-difference conditioning (h = 1e-5)
 
 
 def case_eos(c: dict) -> dict:
@@ -88,7 +88,7 @@ def case_eos(c: dict) -> dict:
             if max(res) > flux_tolerance(eos, branch, tol, v, vp, vm, Tp, Tm):
                 r.tag("skipped-nonconserved")
                 continue
-            sh = OH.shock_Tn(eos, v, vp, Tp, rtol=1e-10)
+            sh = OH.shock_Tn(eos, v, vp, Tp, rtol=max(1e-10, 0.01 * tol["rtol"]))  # oracle 100x tighter than the solver under test
             r.tag(f"{branch}-{sh['kind']}")
             if sh["kind"] == "incomplete":
                 r.true(f"{name}:oracle-integration-complete", False, **sh)
@@ -115,7 +115,7 @@ def case_eos(c: dict) -> dict:
             except Exception as ex:
                 r.true(f"{name}:kappa-no-exception", False, error=repr(ex)[:200], vw=v)
                 continue
-            k_or, parts = OH.kappa(eos, v, vp, vm, Tp, Tm, Tn, alN)
+            k_or, parts = OH.kappa(eos, v, vp, vm, Tp, Tm, Tn, alN, rtol=max(1e-10, 0.01 * tol["rtol"]))
             kt = (100 * tol["rtol"] + 3e-5) * abs(k_or) + 1e-12  # ODE tolerance + Simpson rule on 400 uniform samples (worst measured 7e-6, at the sonic start of a hybrid's rarefaction wave)
             r.close(f"{name}:kappa", k_code, k_or, kt, vw=v, parts=parts, branch=branch)
             r.tag("kappa-" + branch)
